@@ -347,6 +347,10 @@ def outcome(program, stages, model):
             if e[0] == 'store' and e[2][0] == 'sub' and e[2][1] == ('attr', ('param', 'self'), 'source_to_iso_name'):
                 if teval.guard_true(e, model):
                     stored = True
+            if e[0] == 'expr' and e[2][0] == 'call' and e[2][1][0] == 'attr' and e[2][1][1] == ('attr', ('param', 'self'), 'source_to_iso_name') \
+                    and e[2][1][2] in ('update', '__setitem__', 'setdefault'):
+                if teval.guard_true(e, model):
+                    stored = True
             if e[0] == 'return' and teval.guard_true(e, model):
                 if e[2] == NONE:
                     return ('filtered', qual, e[-1], stored)
@@ -354,6 +358,170 @@ def outcome(program, stages, model):
                     break           # handed on to the next stage
                 return ('returned', qual, e[-1], stored)
     return ('returned', None, 0, stored)
+
+class DecodePath:
+    """`_decode` and what it calls, run by the abstract interpreter on one decoder object: the configuration is given as attribute values
+    (as make_model takes them), messages are fed one after the other with stand-in generated decoders, and after each the observable effects are
+    reported: returned or withheld (and by which stage), the source map, the identity attached through add_data, dump lines written."""
+    def __init__(self, program, attrs, consts, iso=None, now_after_window=False, extra_self=None):
+        from . import absint as A
+        from .wire import is_logger
+        self.A = A
+        self.program = program
+        mod = program.mod('decoder')
+        cls = program.cls('decoder', CLS)
+        self.methods = {n.name: n for n in cls.body if isinstance(n, (ast.FunctionDef, ast.AsyncFunctionDef))}
+        self.fn = self.methods.get('_decode')
+        if self.fn is None:
+            raise A.Unknown('_decode not found')
+        self.menv = A.ModuleEnv(mod.tree)
+        self.classes = {c: mod.classes[c] for c in mod.classes if c != CLS}
+        self.is_logger = is_logger
+        self.now_after_window = now_after_window
+        dec = A.AObj()
+        dec.attrs.update(A.class_constants(None, cls))
+        self_attrs = dict(attrs)
+        self_attrs.setdefault('build_network_map', False)
+        self_attrs.setdefault('exclude_manufacturer_code', set())
+        self_attrs.setdefault('include_manufacturer_code', set())
+        self_attrs.setdefault('dump_TextIOWrapper', None)
+        self_attrs.setdefault('preferred_units', {})
+        self.iso_o = self.conv(iso) if iso is not None else None
+        if extra_self:
+            self_attrs.update(extra_self)
+        for k, v in self_attrs.items():
+            if k == 'source_to_iso_name':
+                continue
+            dec.attrs[k] = self.conv(v)
+        dec.attrs['source_to_iso_name'] = A.ADict({7: self.iso_o} if self.iso_o is not None else {})
+        dec.attrs['started_at'] = A.AInt(5)
+        dec.attrs.setdefault('data', A.ADict())
+        dec.attrs.setdefault('logged_unsupported_pgns', A.AList([]))
+        self.dec = dec
+
+    def conv(self, v):
+        A = self.A
+        if isinstance(v, Stub):
+            o = A.AObj(**{k: self.conv(x) for k, x in v.attrs.items()})
+            o.attrs['__stub__'] = v
+            return o
+        if isinstance(v, (set, frozenset)):
+            return A.AList([self.conv(x) for x in sorted(v, key=repr)])
+        if isinstance(v, (list, tuple)):
+            return A.AList([self.conv(x) for x in v])
+        if isinstance(v, dict):
+            return A.ADict({k: self.conv(x) for k, x in v.items()})
+        try:
+            return _from_py(v)
+        except KeyError:
+            if hasattr(v, '__class__') and v.__class__.__name__ == '_F':
+                return A.AObj(dump_file=True)
+            raise A.Unknown(f"configuration value {v!r}")
+
+    def back(self, o):
+        A = self.A
+        if o == '<none>' or o is None:
+            return None
+        if isinstance(o, A.AObj) and '__stub__' in o.attrs:
+            return o.attrs['__stub__']
+        if isinstance(o, A.AObj) and o.attrs.get('new'):
+            return Stub(new=True, name=_to_py(o.attrs.get('name')) if isinstance(o.attrs.get('name'), A.AInt) else None, manufacturer_code=None)
+        return o
+
+    def feed(self, pgn, mid, src=7, name_int=12345):
+        A = self.A
+        program = self.program
+        dec = self.dec
+        before = dec.attrs['source_to_iso_name'].items.get(src) if isinstance(dec.attrs.get('source_to_iso_name'), A.ADict) else None
+        msg = A.AObj(PGN=A.AInt(pgn), id=A.AStr([('lit', mid)]), fields=A.AList([]), source_iso_name=None, hash=None)
+        FUNC = A.AObj(decode_function=True)
+        st = {'entered': False, 'attached': '<none>', 'writes': 0}
+        now_after_window = self.now_after_window
+        def hook(it, call, env):
+            f = call.func
+            name = ast.unparse(f)
+            if name == 'globals().get' or (isinstance(f, ast.Attribute) and f.attr == 'get' and isinstance(f.value, ast.Call) and ast.unparse(f.value.func) in ('globals', 'vars')):
+                st['entered'] = True
+                return FUNC
+            if isinstance(f, ast.Subscript) and isinstance(f.value, ast.Call) and ast.unparse(f.value.func) == 'globals':
+                st['entered'] = True
+                return msg
+            if isinstance(f, ast.Name) and env.get(f.id) is FUNC:
+                return msg
+            if isinstance(f, ast.Attribute) and f.attr == '_isFastPGN':
+                return False
+            if name in ('datetime.now', 'datetime.utcnow', 'time.time', 'time.monotonic'):
+                return A.AInt(10 ** 9 if now_after_window else 0)
+            if name == 'timedelta':
+                return A.AInt(600)
+            if name == 'IsoName':
+                args = [it.expr(a, env) for a in call.args]
+                return A.AObj(new=True, name=args[1] if len(args) > 1 else A.AInt(name_int), manufacturer_code=None, made_from=args[0] if args else None)
+            if isinstance(f, ast.Attribute) and f.attr in ('add_data', 'apply_preferred_units', 'to_json', 'write', 'flush'):
+                try:
+                    recv = it.expr(f.value, env)
+                except A.Unknown:
+                    recv = None
+                if recv is msg and f.attr == 'add_data':
+                    ad = program.fn('message', 'NMEA2000Message.add_data')
+                    names = [a.arg for a in ad.args.args][1:]
+                    vals = [it.expr(a, env) for a in call.args]
+                    kw = {k.arg: it.expr(k.value, env) for k in call.keywords}
+                    bound = dict(zip(names, vals)); bound.update(kw)
+                    st['attached'] = bound.get('source_iso_name', '<none>')
+                    st['add_data'] = bound
+                    msg.attrs['source_iso_name'] = st['attached'] if st['attached'] != '<none>' else None
+                    return None
+                if recv is msg and f.attr == 'apply_preferred_units':
+                    return None
+                if recv is msg and f.attr == 'to_json':
+                    return A.AStr([('lit', '{}')])
+                if isinstance(recv, A.AObj) and recv.attrs.get('dump_file') and f.attr == 'write':
+                    st['writes'] += 1
+                    return None
+                if isinstance(recv, A.AObj) and recv.attrs.get('dump_file') and f.attr == 'flush':
+                    return None
+            return NotImplemented
+        it = A.Interp(hook=hook, skip=self.is_logger, methods=self.methods, module=self.menv, classes=self.classes)
+        args = []
+        for a in self.fn.args.args:
+            p_ = a.arg
+            if p_ == 'self': args.append(dec)
+            elif p_ == 'pgn': args.append(A.AInt(pgn))
+            elif p_ in ('source_id', 'src'): args.append(A.AInt(src))
+            elif p_ in ('destination_id', 'dest'): args.append(A.AInt(255))
+            elif p_ == 'priority': args.append(A.AInt(3))
+            elif p_ == 'can_data': args.append(A.ABytes([('c', b) for b in int(name_int).to_bytes(8, 'big')]))
+            elif p_ == 'already_combined': args.append(False)
+            else: args.append(A.AOpaque(p_))
+        r = it.call_function(self.fn, args)
+        if r is not None and r is not msg:
+            raise A.Unknown('the value returned is not the decoded message')
+        now = dec.attrs['source_to_iso_name'].items.get(src) if isinstance(dec.attrs.get('source_to_iso_name'), A.ADict) else None
+        return {'status': 'returned' if r is msg else 'filtered', 'stage': None if r is msg else ('_call_decode_function' if st['entered'] else '_decode'),
+                'stored': now is not before, 'attached': self.back(st['attached']), 'attached_raw': st['attached'], 'map_entry': now, 'writes': st['writes'], 'msg': msg,
+                'add_data': st.get('add_data')}
+
+def outcome_interp(program, attrs, consts, pgn, mid, iso=None, now_after_window=False, extra_self=None):
+    """the same question as outcome() -- is a message of (pgn, id) returned, by which stage is it withheld, is the source map written, which
+    identity is attached, is a dump line written -- answered by the interpreted decode path (DecodePath).  Used when the tabulated guards are not
+    evaluable (another spelling).  The stand-ins are those of make_model: source 7, NAME 12345 in the claim payload, a discovery window of 600
+    against started_at 5 / now 0 or 10**9.  raises absint.Unknown when the decode path is not interpretable"""
+    return DecodePath(program, attrs, consts, iso=iso, now_after_window=now_after_window, extra_self=extra_self).feed(pgn, mid)
+
+def outcome_any(program, stages, model, spec):
+    """outcome() on the tabulated guards; when they are not evaluable, the interpreted decode path (outcome_interp) answers.
+    spec: dict(attrs, consts, pgn, mid, iso, now_after_window, extra_self) -> (result tuple as outcome(), details dict or None)"""
+    from . import absint as A
+    try:
+        return outcome(program, stages, model), None
+    except teval.EvalUnknown as u:
+        try:
+            d = outcome_interp(program, spec['attrs'], spec['consts'], spec['pgn'], spec['mid'], iso=spec.get('iso'), now_after_window=spec.get('now_after_window', False),
+                               extra_self=spec.get('extra_self'))
+        except (A.Unknown, A.RaiseSignal, KeyError, AttributeError, TypeError) as u2:
+            raise teval.EvalUnknown(f"{u} / decode path not interpretable: {type(u2).__name__}: {u2}"[:300])
+        return (d['status'], d['stage'], 0, d['stored']), d
 
 def universe(consts, P, Q, ID, OTHER):
     nums = [P, Q, consts['ISO_CLAIM_PGN']]
@@ -426,7 +594,7 @@ def filter_table(chk, program, max_entries=2):
                 iso = None if old_name is None else Stub(name=old_name, manufacturer_code=None)
                 model, msg = make_model(attrs, consts, pgn, mid, iso=iso)
                 try:
-                    res = outcome(program, stages, model)
+                    res, _det = outcome_any(program, stages, model, dict(attrs=attrs, consts=consts, pgn=pgn, mid=mid, iso=iso))
                 except teval.EvalUnknown as u:
                     chk.unknown('FILTER-TABLE', f"{mode}={cfg}", f"guard not evaluable: {u}", DEC, 0)
                     return
